@@ -44,7 +44,7 @@ pub fn gen_string(ch: &mut Choices, max_chars: u64) -> String {
     // block 64, the 128-character / 513- and 763-byte limits of the text attributes, 255/256); the
     // alphabet mixes 1-, 2-, 3- and 4-byte characters, so byte offsets 64, 128, 256, 512 fall inside
     // a character in many of them
-    let n = if ch.rare(1, 12) { *ch.pick(&[62u64, 64, 66, 90, 126, 128, 129, 200, 256, 509]) + ch.below(4) } else { ch.range(0, max_chars) };
+    let n = if ch.rare(1, 12) { *ch.pick(&[62u64, 64, 66, 90, 126, 128, 129, 200, 256, 509, 700, 763, 1100]) + ch.below(4) } else { ch.range(0, max_chars) };
     let mut s = String::new();
     for _ in 0..n {
         s.push(*ch.pick(ALPHABET));
@@ -125,11 +125,24 @@ pub fn gen_other_creds(ch: &mut Choices, c: &Creds) -> Creds {
         (0, Creds::Long { user, realm, password }) => Creds::Long { user: user.clone(), realm: realm.clone(), password: format!("{password}x") },
         // same strings, other kind
         (1, Creds::Short(p)) => Creds::Long { user: String::new(), realm: String::new(), password: p.clone() },
-        (1, Creds::Long { password, .. }) => Creds::Short(password.clone()),
+        (1, Creds::Long { user, realm, password }) => {
+            // the short-term credential whose text is the long-term key's *input*: MD5 of it is the
+            // long-term key, the text itself the short-term key — two different keys
+            if ch.coin() {
+                Creds::Short(format!("{user}:{realm}:{password}"))
+            } else {
+                Creds::Short(password.clone())
+            }
+        }
         // empty
         (2, _) => Creds::Short(String::new()),
         // realm / user changed
         (3, Creds::Long { user, realm, password }) => Creds::Long { user: user.clone(), realm: format!("{realm}r"), password: password.clone() },
+        // a short-term text of the shape user:realm:password has a long-term twin with the same text
+        (3, Creds::Short(p)) if p.matches(':').count() >= 2 => {
+            let mut it = p.splitn(3, ':');
+            Creds::Long { user: it.next().unwrap().into(), realm: it.next().unwrap().into(), password: it.next().unwrap().into() }
+        }
         (4, Creds::Long { user, realm, password }) => Creds::Long { user: format!("{user}u"), realm: realm.clone(), password: password.clone() },
         // user and realm shifted across the ':' separator (same concatenation!) is *not* a
         // different key under RFC 8489, so it is not generated here.
@@ -155,6 +168,10 @@ pub fn gen_addr(ch: &mut Choices) -> SocketAddr {
         // IPv4-mapped IPv6: must stay distinct from the plain IPv4 address
         let d = ch.below(4) as u16 + 1;
         SocketAddr::new(IpAddr::V6(Ipv6Addr::new(0, 0, 0, 0, 0, 0xffff, 0xc000, 0x0200 | d)), port)
+    } else if ch.rare(1, 12) {
+        // link-local IPv6: the same address on two links (scope ids) is two different peers
+        let scope = ch.below(3) as u32;
+        SocketAddr::V6(std::net::SocketAddrV6::new(Ipv6Addr::new(0xfe80, 0, 0, 0, 0, 0, 0, 1), port, 0, scope))
     } else if ch.rare(1, 3) {
         let seg = ch.below(4) as u16;
         SocketAddr::new(IpAddr::V6(Ipv6Addr::new(0x2001, 0xdb8, 0, 0, 0, 0, seg, 1)), port)
@@ -170,7 +187,7 @@ pub fn gen_addr_pool(ch: &mut Choices, n: usize) -> Vec<SocketAddr> {
     v.push(SocketAddr::new(IpAddr::V4(Ipv4Addr::new(192, 0, 2, 1)), 3478));
     v.push(SocketAddr::new(IpAddr::V4(Ipv4Addr::new(192, 0, 2, 1)), 3479));
     let mut guard = 0;
-    while v.len() < n && guard < 100 {
+    while v.len() < n && guard < 100 + 10 * n {
         guard += 1;
         let a = gen_addr(ch);
         if !v.contains(&a) {
@@ -349,9 +366,57 @@ pub fn gen_tid(ch: &mut Choices) -> u128 {
         let hi = ch.u64_any() as u128;
         let lo = ch.u64_any() as u128;
         ((hi << 64) | lo) & ((1u128 << 96) - 1)
+    } else if ch.rare(1, 6) {
+        // ids that agree in some 32-bit words and differ in one (top, middle or low word): whoever
+        // compares or hashes only part of an id confuses them
+        let small = ch.range(1, 3) as u128;
+        let word = ch.range(1, 2) as u128;
+        match ch.below(3) {
+            0 => (word << 64) | small,
+            1 => (word << 32) | small,
+            _ => (0xffff_ffffu128 << 64) | (word << 32) | small,
+        }
     } else {
         ch.range(1, 9) as u128
     }
+}
+
+/// Attribute types that are registered with IANA (TURN, ICE, NAT discovery, RFC 7982, …) but that
+/// this library does not implement: a peer may legally send them and the library must treat them
+/// as opaque, with the lengths those specifications give them.
+pub const REGISTERED_UNIMPLEMENTED: &[(u16, &[usize])] = &[
+    (0x0003, &[4]),      // CHANGE-REQUEST
+    (0x000C, &[4]),      // CHANNEL-NUMBER
+    (0x000D, &[4]),      // LIFETIME
+    (0x0012, &[8, 20]),  // XOR-PEER-ADDRESS
+    (0x0013, &[0, 1, 36, 100]), // DATA
+    (0x0016, &[8, 20]),  // XOR-RELAYED-ADDRESS
+    (0x0017, &[4]),      // REQUESTED-ADDRESS-FAMILY
+    (0x0018, &[1]),      // EVEN-PORT
+    (0x0019, &[4]),      // REQUESTED-TRANSPORT
+    (0x001A, &[0]),      // DONT-FRAGMENT
+    (0x0022, &[8]),      // RESERVATION-TOKEN
+    (0x0026, &[0, 7, 64]), // PADDING
+    (0x0027, &[4]),      // RESPONSE-PORT
+    (0x002A, &[4]),      // CONNECTION-ID
+    (0x8025, &[4]),      // TRANSACTION-TRANSMIT-COUNTER (RFC 7982)
+    (0x8027, &[4]),      // CACHE-TIMEOUT
+    (0x802B, &[8, 20]),  // RESPONSE-ORIGIN
+    (0x802C, &[8, 20]),  // OTHER-ADDRESS
+    (0x802D, &[4]),      // ECN-CHECK
+    (0xC001, &[4]),      // experimental range
+    (0xC057, &[4]),      // GOOG-NETWORK-INFO
+];
+
+/// A complete, well-formed STUN message to be carried as the *payload* of another attribute (what a
+/// TURN Send/Data indication does with an ICE connectivity check): signed and/or fingerprinted, so
+/// that the outer message contains serialised integrity and fingerprint attributes that are not its
+/// own.
+pub fn embedded_message(ch: &mut Choices) -> Vec<u8> {
+    let c = Creds::Short("embedded".into());
+    let variant = ch.range(1, 7);
+    let attrs = if ch.coin() { vec![TAttr::Priority(7), TAttr::UseCandidate] } else { vec![] };
+    MsgSpec { class: ch.below(4) as u8, method: 1, tid: gen_tid(ch), attrs, seals: seals_of(variant, &c) }.build()
 }
 
 /// A 64-bit value that, some of the time, spells an attribute header when it ends a message.
@@ -406,10 +471,22 @@ pub fn gen_tattr(ch: &mut Choices, pool: &[SocketAddr], big: usize) -> TAttr {
         15 => TAttr::Nonce(gen_string(ch, 10)),
         _ => {
             // raw: unknown type (both comprehension classes), lengths around padding residues
+            if ch.rare(1, 5) {
+                // a registered attribute this library does not implement, with its specified length
+                let (ty, lens) = REGISTERED_UNIMPLEMENTED[ch.below(REGISTERED_UNIMPLEMENTED.len() as u64) as usize];
+                if ty == 0x0013 && ch.coin() {
+                    return TAttr::Raw(ty, embedded_message(ch));
+                }
+                let len = *ch.pick(lens);
+                return TAttr::Raw(ty, ch.bytes(len));
+            }
             let ty = *ch.pick(&[0x7f00u16, 0xff00, 0x0030, 0xc001, 0x0002, 0x8000, 0x7fff]);
             let len = if big > 0 && ch.rare(1, 6) {
                 let edges = [big as u64, big as u64 - 1, big as u64 - 3, 763, 764, 513, 255, 256];
                 ch.edgy(0, big as u64, &edges) as usize
+            } else if ch.rare(1, 10) {
+                // medium sizes: around scratch-buffer and MTU sized thresholds, every padding residue
+                *ch.pick(&[255usize, 256, 508, 512, 1020, 1024, 1200, 1468, 2048, 4092, 4096]) + ch.below(8) as usize
             } else {
                 ch.below(9) as usize
             };
@@ -442,6 +519,16 @@ fn tattr_type(a: &TAttr) -> u16 {
 
 /// Unique-typed attribute list (the builder refuses duplicates anyway).
 pub fn gen_attrs(ch: &mut Choices, pool: &[SocketAddr], o: &SpecOpts) -> Vec<TAttr> {
+    if o.max_attrs >= 4 && o.big == 0 && ch.rare(1, 40) {
+        // a message with very many small attributes (distinct types: the builder refuses repeats):
+        // 31..34, 63..66, 127..130 or 255..258 of them, then possibly one known one at the very end
+        let n = *ch.pick(&[31u64, 63, 127, 255]) + ch.below(4);
+        let mut v: Vec<TAttr> = (0..n).map(|i| TAttr::Raw(if i % 2 == 0 { 0x7100 } else { 0xf100 } + i as u16, ch.bytes((i % 5) as usize))).collect();
+        if ch.coin() {
+            v.push(TAttr::Software("last".into()));
+        }
+        return v;
+    }
     let n = ch.range(0, o.max_attrs);
     let mut v: Vec<TAttr> = vec![];
     for _ in 0..n {
@@ -486,7 +573,7 @@ pub const KNOWN_TYPES: &[(u16, &[usize])] = &[
     (0x0020, &[8, 20]),
     (0x0024, &[4]),
     (0x0025, &[0]),
-    (0x8002, &[4, 8]),
+    (0x8002, &[4, 8, 12, 16]),
     (0x8003, &[0, 5]),
     (0x8022, &[0, 5, 64, 128, 256, 763]),
     (0x8023, &[8, 20]),
@@ -520,7 +607,19 @@ pub fn gen_raw_value(ch: &mut Choices, ty: u16) -> Vec<u8> {
             }
         }
     }
-    if (ty == 0x001D || ty == 0x8002) && len >= 4 && ch.coin() {
+    if (ty == 0x001D || ty == 0x8002) && len >= 4 && ch.rare(1, 4) {
+        // nested (algorithm, parameter length, parameters) entries with unknown algorithm numbers and
+        // parameter lengths from the edges of the 16-bit range: the claimed length matters, not the
+        // bytes actually present
+        for c in v.chunks_mut(4) {
+            if c.len() == 4 {
+                let alg = *ch.pick(&[1u16, 2, 3, 0, 0xffff, 0x0100]);
+                let pl = *ch.pick(&[0u16, 0, 1, 3, 4, 5, 0x7fff, 0x8000, 0xfff8, 0xfff9, 0xfffa, 0xfffb, 0xfffc, 0xfffd, 0xfffe, 0xffff]);
+                c[0..2].copy_from_slice(&alg.to_be_bytes());
+                c[2..4].copy_from_slice(&pl.to_be_bytes());
+            }
+        }
+    } else if (ty == 0x001D || ty == 0x8002) && len >= 4 && ch.coin() {
         for c in v.chunks_mut(4) {
             if c.len() == 4 {
                 c[0] = 0;
@@ -549,6 +648,11 @@ pub fn gen_raw_value(ch: &mut Choices, ty: u16) -> Vec<u8> {
 }
 
 pub fn gen_foreign_attr(ch: &mut Choices) -> RefItem {
+    if ch.rare(1, 8) {
+        let (ty, lens) = REGISTERED_UNIMPLEMENTED[ch.below(REGISTERED_UNIMPLEMENTED.len() as u64) as usize];
+        let value = if ty == 0x0013 && ch.coin() { embedded_message(ch) } else { let l = *ch.pick(lens); ch.bytes(l) };
+        return RefItem::Attr { ty, value, pad: 0 };
+    }
     let ty = if ch.rare(1, 4) {
         *ch.pick(&[0x7f00u16, 0xff00, 0x0030, 0xc001, 0x0000, 0xffff])
     } else {
@@ -566,9 +670,17 @@ pub fn gen_foreign(ch: &mut Choices, creds: &Creds, max_attrs: u64) -> RefMsg {
     let class = ch.below(4) as u8;
     let method = *ch.pick(&[1u16, 0, 0xfff, 3, 0x080, 0x555]);
     let mut m = RefMsg::new(class, method, gen_tid(ch));
-    let n = ch.range(0, max_attrs);
-    for _ in 0..n {
-        m.items.push(gen_foreign_attr(ch));
+    let many = max_attrs >= 4 && ch.rare(1, 40);
+    let n = if many { *ch.pick(&[32u64, 33, 64, 65, 128, 300]) } else { ch.range(0, max_attrs) };
+    for i in 0..n {
+        if many && i + 1 < n {
+            // very many *small* attributes (repeats allowed); the last one is an ordinary drawn one
+            let ty = *ch.pick(&[0x7f00u16, 0xff00, 0x0030, 0x8022, 0x0025, 0xc001]);
+            let l = ch.below(6) as usize;
+            m.items.push(RefItem::Attr { ty, value: ch.bytes(l), pad: 0 });
+        } else {
+            m.items.push(gen_foreign_attr(ch));
+        }
     }
     let rc = creds.reference();
     // legal tails: [], [FP], [MI], [MI256], [MI,FP], [MI256,FP], [MI,MI256], [MI256,MI], [MI,MI256,FP], [MI256,MI,FP]
